@@ -1,9 +1,11 @@
 //! Group driver `auth` (C27 C28 C29 C31 C35 C37): runs the REAL kanidm code and records observed
 //! traces (ndjson) which TLC validates against the TLA+ specifications in /verif/spec.
 use kvc::util::Opts;
+mod c27;
 mod c28;
 mod c29;
 mod c35;
+mod c37;
 mod ca_data;
 mod world;
 
@@ -15,9 +17,11 @@ fn main() {
     }
     let opts = Opts::parse(&args[2..]);
     let rc = match args[1].as_str() {
+        "c27" => c27::run(&opts),
         "c28" => c28::run(&opts),
         "c29" => c29::run(&opts),
         "c35" => c35::run(&opts),
+        "c37" => c37::run(&opts),
         other => {
             eprintln!("unknown subcommand {other}");
             2
